@@ -612,12 +612,10 @@ func (bridge *ExprBridge) convertLikeToFunction(field, pattern string) string {
 		return fmt.Sprintf("%s contains '%s'", field, inner)
 	} else if strings.HasPrefix(pattern, "%") && len(pattern) > 1 {
 		// %pattern -> endsWith操作符
-		suffix := strings.TrimPrefix(pattern, "%")
-		return fmt.Sprintf("%s endsWith '%s'", field, suffix)
+		return fmt.Sprintf("%s endsWith '%s'", field, core)
 	} else if strings.HasSuffix(pattern, "%") && len(pattern) > 1 {
 		// pattern% -> startsWith操作符
-		prefix := strings.TrimSuffix(pattern, "%")
-		return fmt.Sprintf("%s startsWith '%s'", field, prefix)
+		return fmt.Sprintf("%s startsWith '%s'", field, core)
 	} else if pattern == "%" {
 		// 单独的%匹配任何字符串
 		return "true"
